@@ -23,6 +23,7 @@ func checkC14(r *Run) {
 	ruleFilteredWriter(r, p)
 	ruleErrorHandler(r, p)
 	ruleA13(r, p, map[string]bool{"": true}, "c")
+	ruleMultiAlwaysWraps(r, p)
 	r.Floor("FANOUT", 14)
 	r.Floor("FILTER", 2)
 	r.Floor("ERRH", 6)
@@ -415,4 +416,51 @@ func valueIsWriterErrOrNil(v ssa.Value, seen map[ssa.Value]bool) bool {
 		}
 	}
 	return false
+}
+
+// ruleMultiAlwaysWraps: the short-write → io.ErrShortWrite translation and the "first failure
+// wins" accumulation live in multiLevelWriter. MultiLevelWriter() therefore returns that wrapper
+// for every number of destinations: handing back its only argument "to spare the loop" loses the
+// translation for the one-destination case (Event.write ignores the count).
+func ruleMultiAlwaysWraps(r *Run, p *Prog) {
+	f := p.Func("", "MultiLevelWriter")
+	mt := p.NamedType("", "multiLevelWriter")
+	if !r.Anchor(f != nil && mt != nil, "FANOUT", "MultiLevelWriter / multiLevelWriter") {
+		return
+	}
+	v := p.View(f, "", nil)
+	n, okAll, why := 0, true, ""
+	var isWrapper func(x ssa.Value, depth int) bool
+	isWrapper = func(x ssa.Value, depth int) bool {
+		if depth > 4 {
+			return false
+		}
+		switch y := x.(type) {
+		case *ssa.MakeInterface:
+			return namedOf(y.X.Type()) == mt
+		case *ssa.Phi:
+			for _, e := range y.Edges {
+				if !isWrapper(e, depth+1) {
+					return false
+				}
+			}
+			return true
+		case *ssa.ChangeInterface:
+			return isWrapper(y.X, depth+1)
+		}
+		return false
+	}
+	eachInstr(v, func(b *ssa.BasicBlock, i int, in ssa.Instruction) {
+		ret, ok := in.(*ssa.Return)
+		if !ok || len(ret.Results) != 1 {
+			return
+		}
+		n++
+		if !isWrapper(ret.Results[0], 0) {
+			okAll = false
+			why = descr(ret.Results[0])
+		}
+	})
+	okc := okAll && n > 0
+	r.Ob("FANOUT", FnName(f)+"/always-wraps", p.Pos(f.Pos()), okc, true, tern(okc, "every return is a multiLevelWriter (the short-write translation applies for any number of destinations)", "MultiLevelWriter can return "+why+" instead of its wrapper: for that case a short write by the destination is never turned into io.ErrShortWrite, so ErrorHandler is not called"))
 }
